@@ -67,7 +67,7 @@ class WildebeestHerdOptimization(OptimizationAbstract):
             dist_to_best = distance(wildebeest.position, g_best.position)
             if 1.0 < dist_to_best < delta_c:
                 return Wildebeest(**self._init_agent(
-                    np.array(g_best.position) + self._config.eta * self._task.empty_solution()
+                    np.array(g_best.position) + self._config.eta * np.array(self._task.empty_solution())
                 ).model_dump())
             return None
 
